@@ -23,17 +23,6 @@ def Pos.vars : Pos → List Nat
 
 def TP.vars (tp : TP) : List Nat := tp.s.vars ++ tp.p.vars ++ tp.o.vars
 
-/-- column `k` of a VALUES block is bound in every row / in some row -/
-def colAll (k : Nat) (rows : List (List (Option Term))) : Bool :=
-  rows.all fun r => ((r[k]?).getD none).isSome
-def colAny (k : Nat) (rows : List (List (Option Term))) : Bool :=
-  rows.any fun r => ((r[k]?).getD none).isSome
-
-def valuesMust (vars : List Nat) (rows : List (List (Option Term))) : List Nat :=
-  (vars.zipIdx.filter fun vk => colAll vk.2 rows).map (·.1)
-def valuesMay (vars : List Nat) (rows : List (List (Option Term))) : List Nat :=
-  (vars.zipIdx.filter fun vk => colAny vk.2 rows).map (·.1)
-
 /-- variables bound in EVERY solution of the pattern -/
 def Alg.must : Alg → List Nat
   | .bgp tps => tps.flatMap TP.vars
@@ -44,7 +33,7 @@ def Alg.must : Alg → List Nat
   | .minus a _ _ => a.must
   | .extend p _ _ _ => p.must
   | .graph g p => g.vars ++ p.must
-  | .values vars rows => valuesMust vars rows
+  | .values _ _ => []          -- UNDEF cells: nothing is guaranteed
   | .project p pv => p.must.filter (pv.contains ·)
 
 /-- variables bound in SOME solution of the pattern (an upper bound) -/
@@ -57,7 +46,7 @@ def Alg.may : Alg → List Nat
   | .minus a _ _ => a.may
   | .extend p v _ _ => v :: p.may
   | .graph g p => g.vars ++ p.may
-  | .values vars rows => valuesMay vars rows
+  | .values vars _ => vars
   | .project p pv => p.may.filter (pv.contains ·)
 
 mutual
